@@ -182,7 +182,7 @@ func TestProxyExhaustive(t *testing.T) {
 	if ev.Thorough() {
 		maxLen = 5
 	}
-	alpha := []POp{{"wh", 200}, {"wh", 404}, {"wh", 500}, {"wh", 101}, {"w", 3}, {"w", 0}, {"rf", 5}, {"flush", 0}}
+	alpha := []POp{{"wh", 200}, {"wh", 404}, {"wh", 600}, {"wh", 101}, {"w", 3}, {"w", 0}, {"rf", 5}, {"flush", 0}}
 	var n, nt int64
 	for _, caps := range []string{"basic", "flusher", "full"} {
 		for _, acc := range []int{-1, 0, 4, 7} {
@@ -239,7 +239,7 @@ func TestProxyRapid(t *testing.T) {
 			op := POp{K: k}
 			switch k {
 			case "wh":
-				op.N = rapid.SampledFrom([]int{200, 201, 204, 301, 304, 400, 404, 500, 503, 101, 103}).Draw(rt, "code")
+				op.N = rapid.SampledFrom([]int{200, 201, 204, 301, 304, 400, 404, 500, 503, 101, 103, 599, 600, 799, 999}).Draw(rt, "code")
 			case "w", "rf":
 				op.N = rapid.SampledFrom([]int{0, 1, 2, 100, 4096, 70000}).Draw(rt, "bytes")
 			}
